@@ -588,6 +588,19 @@ def user(n, s):
     b += s
     return a, b
 
+_BATCHES: dict[tuple, list] = {}
+
+def batches(images, size, key=None):
+    cache_key = None
+    if key is None:
+        cache_key = (tuple(id(im) for im in images), size)
+        if cache_key in _BATCHES:
+            return list(_BATCHES[cache_key])
+    out = [im[:size] for im in images]
+    if cache_key is not None:
+        _BATCHES[cache_key] = out
+    return out
+
 class Img:
     def __init__(self, data):
         self.data = data
@@ -642,19 +655,35 @@ class _MiniPM(Repo):
         self._aliases = {}
 
 
+def _scan_s3(pm):
+    """S3 memo key does not determine the result (the CACHE rule of cachekey.py, over the whole package)."""
+    from .cachekey import scan_module
+
+    found = []
+    n = 0
+    for mod in sorted(pm.mods):
+        res, nc = scan_module(pm.module(mod))
+        n += nc
+        for q, line, what in res:
+            found.append(dict(kind="memo-key", involved=["%s.%s" % (mod, q)], construct=q, mod=mod, line=line, what=what + " (a sequence of calls is needed to see it)", witness="memo-key:%s" % q))
+    return found, dict(keyed_memo_functions=n)
+
+
 def scan(pm):
     f1, s1 = _scan_s1(pm)
     f2, s2 = _scan_s2(pm)
+    f3, s3 = _scan_s3(pm)
     stats = dict(s1)
     stats.update(s2)
-    return f1 + f2, stats
+    stats.update(s3)
+    return f1 + f2 + f3, stats
 
 
 def selfcheck():
     pm = _MiniPM(_POSITIVE)
     found, stats = scan(pm)
     keys = sorted(f["witness"] for f in found)
-    if keys != ["derived:Img._norm<-set", "derived:Multi._layout<-put", "memo:table<-user"]:
+    if keys != ["derived:Img._norm<-set", "derived:Multi._layout<-put", "memo-key:batches", "memo:table<-user"]:
         raise AnalysisError("STATE rule self-check failed: the built-in positive example gives %s" % keys)
     return len(found)
 
@@ -671,6 +700,6 @@ def apply(ctx):
             continue
         n += 1
         ctx.add(Finding(ctx.prop, "%s.STATE.%s" % (ctx.prop, f["kind"]), f["construct"], f["what"], ctx.pm.path(f["mod"]), f["line"], None, f["witness"]))
-    ev.instances("%s.STATE.positive_example_reports" % ctx.prop, n_pos, floor=3)
+    ev.instances("%s.STATE.positive_example_reports" % ctx.prop, n_pos, floor=4)
     ev.extra["state_rule"] = dict(stats, findings_in_package=len(found), findings_involving_this_property=n,
-                                  rule="S1 shared-memo mutation, S2 stale derived attribute (ginverif/state.py); whole package scanned, reported where an involved function is analysed by this property")
+                                  rule="S1 shared-memo mutation, S2 stale derived attribute, S3 memo key that does not determine the result (ginverif/state.py, cachekey.py); whole package scanned, reported where an involved function is analysed by this property")
